@@ -1,6 +1,6 @@
 From RsdnsModel Require Import Base Cursor Names Labels Header Tracker RData Reader Client.
 From RsdnsModel.Spec Require Import NameText WireName.
-From RsdnsModel.Proofs Require Import NameOrder ClientProofs MessageRT AcceptComplete.
+From RsdnsModel.Proofs Require Import NameOrder ClientProofs MessageRT AcceptComplete TimedProofs.
 From RsdnsModel.Properties Require Import C12.
 Open Scope N_scope.
 Check (C12_accept_sound : forall std id qname qtype qclass d fl,
@@ -11,6 +11,8 @@ Check (C12_accept_sound : forall std id qname qtype qclass d fl,
     snd (rd_question d true false r1) = Ok (OQuestion n qtype qclass) /\ name_eq_str n qname = true).
 Check (C12_rejects_silently : forall std id qname qtype qclass d,
   match accept_datagram std id qname qtype qclass d with Err _ => False | _ => True end).
+Check (C12_filter_total : forall std id qname qtype qclass d,
+  exists o, accept_datagram std id qname qtype qclass d = Ok o).
 Check (C12_first_match : forall std id qname qtype qclass ds d fl,
   udp_receive std id qname qtype qclass ds = Ok (Some (d, fl)) ->
   exists pre post, ds = pre ++ d :: post /\
@@ -37,4 +39,4 @@ Check (C12_filter_example : accept_datagram true 4660 [x61] 1 1 example_msg = Ok
   accept_datagram true 4660 [x62] 1 1 example_msg = Ok None /\
   accept_datagram true 4660 [x61] 28 1 example_msg = Ok None /\
   accept_datagram false 4660 [x61] 1 3 example_msg = Ok None).
-Print Assumptions C12_accept_sound. Print Assumptions C12_rejects_silently. Print Assumptions C12_first_match. Print Assumptions C12_nothing_accepted. Print Assumptions C12_accepted_question_is_asked. Print Assumptions C12_genuine_response_accepted. Print Assumptions C12_filter_example.
+Print Assumptions C12_accept_sound. Print Assumptions C12_rejects_silently. Print Assumptions C12_filter_total. Print Assumptions C12_first_match. Print Assumptions C12_nothing_accepted. Print Assumptions C12_accepted_question_is_asked. Print Assumptions C12_genuine_response_accepted. Print Assumptions C12_filter_example.
